@@ -118,9 +118,26 @@ def run(ctx):
             for e, w in pats:
                 cases.append(f"dec {c ^ e:06x}")
                 meta.append((d, e, w))
+    # the decoder is a function of its argument: the same word presented again, and words that differ only in the parity bit
+    # presented alternately, must be judged as on their first visit (a memo / cache kept between calls must not show)
+    if enc_cpp and all(v is not None for v in enc_cpp.values()):
+        heavy = [(e, w) for e, w in pats if w in (3, 4)]
+        nrep = 4000 if thorough else 800
+        for _ in range(nrep):
+            d = words[r.below(len(words))]
+            e, w = heavy[r.below(len(heavy))]
+            c = enc_cpp[d]
+            e2 = e ^ 1                                  # the neighbour across the overall parity bit
+            w2 = bin(e2).count("1")
+            for (ee, ww) in ((e, w), (e, w), (e2, w2), (e, w), (e2, w2), (e2, w2)):
+                if ww <= 4:
+                    cases.append(f"dec {c ^ ee:06x}")
+                    meta.append((d, ee, ww))
+        ctx.count("revisited-and-parity-neighbour-sequences", nrep)
     ctx.count("codeword+weight0", 64)
     for w, n in ((1, 24), (2, 276), (3, 2024), (4, 10626)):
         ctx.count(f"codeword+weight{w}", 64 * n)
+    n_struct = len(cases)
     nrand = 100000
     for _ in range(nrand):
         cases.append(f"dec {r.below(1 << 24):06x}")
@@ -235,7 +252,7 @@ def run(ctx):
         # (b) against the bounded-distance decoder of the specification (slow: a sample)
         if model:
             ns = 160 if thorough else 48
-            pick = [r.below(64 * 12951) for _ in range(ns // 2)] + [64 * 12951 + r.below(nrand) for _ in range(ns // 2)]
+            pick = [r.below(max(1, n_struct)) for _ in range(ns // 2)] + [n_struct + r.below(nrand) for _ in range(ns // 2)]
             pc = [cases[i] for i in pick if i < len(cases)]
             rcs, spec_out = run_parallel(ctx, model, ["spec"], pc)
             sl = spec_out.strip("\n").split("\n")
